@@ -64,9 +64,9 @@ def explore():
     if race:
         args += ["-racebin", race]
     if ck.thorough():
-        args += ["-same", "40", "-partial", "12", "-race", "4", "-par", "4", "-go117", "12", "-racerepo", "./lintcmd/runner,./internal/sync,./analysis/lint,./unused"]
+        args += ["-same", "40", "-partial", "12", "-race", "4", "-par", "4", "-go117", "12", "-dirruns", "24", "-stress", "6000000", "-racerepo", "./lintcmd/runner,./internal/sync,./analysis/lint,./unused"]
     else:
-        args += ["-same", "5", "-partial", "2", "-race", "1", "-par", "4", "-traced", "0", "-text=false", "-go117", "2"]
+        args += ["-same", "5", "-partial", "2", "-race", "1", "-par", "4", "-traced", "0", "-text=false", "-go117", "2", "-dirruns", "8", "-stress", "300000"]
     env = dict(GOENV); env["VERIF_REPO"] = REPO
     rc, out = sh(args, timeout=6 * 3600, env=env)
     if rc != 0 or not os.path.exists(res):
@@ -266,6 +266,7 @@ ck.finish({
     "traces_validated_against_impl": nvalid,
     "trace_events": events, "analyzer_levels": inner_levels,
     "byte_identical_runs": len(same), "partial_runs": len([r for r in runs if r["Kind"] == "partial"]),
+    "decrement_stress_rounds": data.get("Stress"),
     "race_runs": data.get("RaceRuns", 0), "race_log": data.get("RaceLog", ""),
     "gomaxprocs": sorted({r["GMP"] for r in runs}), "yield_seeds": len({r["Yield"] for r in runs}),
     "observed_output_sorted_and_key_total": obs_ok,
